@@ -691,6 +691,21 @@ class Bubble(monoidal.Bubble, Box):
         self.func = func
         super().__init__(inside, **params)
 
+    @property
+    def free_symbols(self):
+        return self.inside.free_symbols
+
+    def subs(self, *args):
+        return Bubble(
+            self.inside.subs(*args), self.func, dom=self.dom, cod=self.cod,
+            drawing_name=self.drawing_name)
+
+    def lambdify(self, *symbols, **kwargs):
+        inside = self.inside.lambdify(*symbols, **kwargs)
+        return lambda *xs: Bubble(
+            inside(*xs), self.func, dom=self.dom, cod=self.cod,
+            drawing_name=self.drawing_name)
+
     def grad(self, var, **params):
         """
         The gradient of a bubble is given by the chain rule.
